@@ -3152,6 +3152,36 @@ import (
 func TestVerifReplay(t *testing.T) {
 	fail := func(format string, a ...any) { t.Fatalf("REPLAY-VIOLATION "+format, a...) }
 
+	// (0) every writer of a variable reports to the subscribers - Init, Set, Compute, DefaultTo, ToggleValue; an event
+	// that is initialised as triggered runs its handlers
+	{
+		v := NewVariable[int]()
+		last, calls := 0, 0
+		v.OnUpdate(func(prev, cur int) {
+			if prev != last {
+				fail("variable subscriber: callback (%d -> %d) but the preceding new value was %d", prev, cur, last)
+			}
+			last = cur
+			calls++
+		})
+		v.Init(5)
+		v.Set(6)
+		v.Compute(func(c int) int { return c + 1 })
+		reset := v.ToggleValue(9)
+		reset()
+		v.DefaultTo(3)
+		if last != v.Get() || calls != 6 {
+			fail("variable after Init(5), Set(6), Compute(+1), ToggleValue(9), reset, DefaultTo(3): the subscriber was called %d times and last saw %d, the variable holds %d", calls, last, v.Get())
+		}
+		e := NewEvent()
+		handled := false
+		e.OnTrigger(func() { handled = true })
+		e.Init(true)
+		if !e.WasTriggered() || !handled {
+			fail("event.Init(true): triggered = %v, handler called = %v", e.WasTriggered(), handled)
+		}
+	}
+
 	// (1) Replace with elements that stay: a mirror that applies the reported mutations, and a derived set
 	{
 		s := NewSet[int]()
